@@ -147,7 +147,7 @@ PROPS["C18"] = dict(
     kani=[dict(files=["contracts/C18/c18.rs"])],
     native=[dict(files=["contracts/C07/whole_run_native.rs", "contracts/C18/c18_native.rs"],
                  harnesses={"c18_native_swarm": dict(anchor="PSO components (velocity update, inertia weight, personal/global best)",
-                            bound="BOUNDED STAND-IN, native run: real PSO template with probes, 12 iterations x 4 seeds x 5 parameter sets (decreasing, increasing and constant weight schedules; two with c1 = c2 = 0 to observe the stored inertia weight; one with a single particle)")})],
+                            bound="BOUNDED STAND-IN, native run: real PSO template with probes, 12 iterations x 4 seeds x 2 objective scales (1 and 1e-18) x 5 parameter sets (decreasing, increasing and constant weight schedules; two with c1 = c2 = 0 to observe the stored inertia weight; one with a single particle)")})],
     min_obligations={"quick": 4, "thorough": 4},
     uncovered=["the velocity formula itself with non-zero c1, c2 (random draws)", "Linear::map for symbolic weights (CBMC does not finish: two float multiply-add chains); only the pairs (0.9, 0.4), (0.4, 0.9)"],
     assumptions=["lens / mapping mirrors (arbitrary functions of problem and state)", "CBMC's IEEE-754 model"],
@@ -163,7 +163,7 @@ PROPS["C19"] = dict(
     kani=[dict(files=["contracts/C19/c19.rs"])],
     native=[dict(files=["contracts/C19/c19_native.rs"],
                  harnesses={"c19_native_ant_colony": dict(anchor="AcoGeneration / AsPheromoneUpdate / MinMaxPheromoneUpdate",
-                            bound="BOUNDED STAND-IN, native run: 2 TSP instances (5 and 6 cities) x 4 seeds x {ant system, max-min with initial trails inside / above / below the bounds} x 25 generation + evaluation + update steps")})],
+                            bound="BOUNDED STAND-IN, native run: 2 TSP instances (5 and 6 cities) x 4 seeds x {ant system with alpha in {1, 0, 0.25, 2}, max-min with initial trails inside / above / below the bounds} x 25 generation + evaluation + update steps")})],
     min_obligations={"quick": 2, "thorough": 3},
     uncovered=["'for every pheromone state the algorithm can reach' beyond the states reached in the runs", "the sampling distribution of the tours",
                "evaporation with a symbolic factor (CBMC does not finish: float multipliers); factors {1, 0.5, 0.75, 0}"],
